@@ -2,12 +2,24 @@ package pfcp
 
 import (
 	"net"
+	"runtime/debug"
 
 	"github.com/pkg/errors"
 	"github.com/wmnsk/go-pfcp/message"
 )
 
-func (s *PfcpServer) reqDispacher(msg message.Message, addr net.Addr) error {
+// recoverDispatch turns a panic raised while one received message is handled
+// (e.g. by an IE accessor reading past the end of a malformed IE) into an error
+// for that message, so that a single datagram cannot terminate the UPF.
+func (s *PfcpServer) recoverDispatch(msg message.Message, err *error) {
+	if p := recover(); p != nil {
+		s.log.Errorf("panic while handling msg type %d: %v\n%s", msg.MessageType(), p, string(debug.Stack()))
+		*err = errors.Errorf("pfcp message type %d dropped: %v", msg.MessageType(), p)
+	}
+}
+
+func (s *PfcpServer) reqDispacher(msg message.Message, addr net.Addr) (err error) {
+	defer s.recoverDispatch(msg, &err)
 	switch req := msg.(type) {
 	case *message.HeartbeatRequest:
 		s.handleHeartbeatRequest(req, addr)
@@ -29,7 +41,8 @@ func (s *PfcpServer) reqDispacher(msg message.Message, addr net.Addr) error {
 	return nil
 }
 
-func (s *PfcpServer) rspDispacher(msg message.Message, addr net.Addr, req message.Message) error {
+func (s *PfcpServer) rspDispacher(msg message.Message, addr net.Addr, req message.Message) (err error) {
+	defer s.recoverDispatch(msg, &err)
 	switch rsp := msg.(type) {
 	case *message.SessionReportResponse:
 		s.handleSessionReportResponse(rsp, addr, req)
